@@ -314,10 +314,19 @@ def run_tasks(tasks, jobs=None):
     if not tasks:
         return []
     ctx = multiprocessing.get_context('fork')
+    budget = C.budget_s()
+    deadline = (time.time() + budget) if budget else None
+    out = []
     with ctx.Pool(min(jobs, len(tasks)), maxtasksperchild=40) as pool:
-        out = []
-        for res in pool.imap_unordered(run_task, tasks, chunksize=1):
-            out.extend(res)
+        step = jobs * 6
+        for i in range(0, len(tasks), step):
+            if deadline and time.time() > deadline:
+                for t in tasks[i:]:
+                    out.append(dict(oid=t['oid'], verdict='inconclusive', detail='not explored: wall-time budget of the run exhausted', desc=t.get('desc', {}),
+                                    chunk=t.get('chunk'), violations=[]))
+                break
+            for res in pool.imap_unordered(run_task, tasks[i:i + step], chunksize=1):
+                out.extend(res)
     return out
 
 
